@@ -156,8 +156,13 @@ public:
         op_counter++;
 
         // Normalize
+        // If A * v0 = 0, i.e., v0 lies in the null space of A, then v0 itself is
+        // an eigenvector, and we use it to avoid dividing by zero
         const RealScalar vnorm = m_op.norm(v);
-        v /= vnorm;
+        if (vnorm < m_near_0)
+            v.noalias() = v0 / v0norm;
+        else
+            v /= vnorm;
 
         // Compute H and f
         Vector w(m_n);
